@@ -382,6 +382,8 @@ def make_node(ctx: Ctx, spec: dict, flavour: str):
         common["rename_inputs"] = dict(spec["rename_inputs"])
     if spec.get("cache"):
         common["cache"] = True
+    if spec.get("hide") and kind == "func":
+        common["hide"] = True  # documented option: the node is left out of diagrams
     if kind == "func" or kind == "interrupt":
         outs = spec.get("outs", [])
         on = None if not outs else (outs[0] if len(outs) == 1 else tuple(outs))
@@ -491,7 +493,15 @@ def make_graph(ctx: Ctx, gspec: dict, flavour: str = "sync"):
 
 
 def make_graph_node(ctx: Ctx, spec: dict, flavour: str):
-    inner = make_graph(ctx, spec["graph"], flavour)
+    if spec.get("share"):
+        # several wrappers around the SAME Graph object (g.as_node(name="a"), g.as_node(name="b"))
+        shared = ctx.__dict__.setdefault("shared_graphs", {})
+        key = (spec["share"], flavour)
+        if key not in shared:
+            shared[key] = make_graph(ctx, spec["graph"], flavour)
+        inner = shared[key]
+    else:
+        inner = make_graph(ctx, spec["graph"], flavour)
     gn = inner.as_node(name=spec["name"]) if spec.get("name") else inner.as_node()
     m = spec.get("map")
     if m and m.get("before_renames"):
